@@ -55,6 +55,8 @@ two places where the positivity class of model and code differ, listed explicitl
 | MsgVaultInterestCalc makes no bank call | `interestCalc_effects` |
 | liquidationsV2 `LiquidateIndividualVault` moves the collateral vault → auction custody, if positive = `seizeOps` | `seize_effects` (`custody_go_all`) |
 | x/esm redemption of a vault / stable-mint vault: one unguarded transfer vault → esm per vault, both branches = `esmVaultOps` / `esmStableOps` up to the positivity class | `esm_effects` |
+| the liquidation sweeps run each liquidation inside `ApplyFuncIfNoError` (seed s61) | `sweep_cached` |
+| `MsgCollateralRedemption` / collector debt redemption: golden skeleton (the model has them as direct ledger edits) | `esm_pins` |
 | the model's handlers run exactly these lists, then only touch records | `close_runs_ops`, `repay_runs_ops`, `create_runs_ops`, `deposit_runs_ops`, `withdraw_runs_ops`, `draw_runs_ops` |
 | every bank call of the eleven handlers is classified, no opaque call | `vault_all_classified` |
 | the handler body writes its own records only after its last bank call (every path) | `vault_writes_after_bank` |
@@ -378,6 +380,34 @@ theorem esm_effects (p : Product) (from_ : Nat) (v : VaultRec) (amountIn : Int) 
       = (modelSkel p from_ (esmStableOps p amountIn)).map (relaxAt [0]) := by
   rw [(custody_go first).2.1, (custody_go first).2.2]
   constructor <;> simp [modelSkel, opSkel, role_vm, role_em, drole_in, mk, sVm, relaxAt]
+
+/-- **The liquidation sweeps run every single liquidation inside `ApplyFuncIfNoError`** (liquidate.go:59, 251): everything
+`LiquidateIndividualVault` / `LiquidateIndividualBorrow` do (the items written in other functions than the sweep itself) sits in
+the cache-context closure, so a failure after the collateral has been moved leaves no half-applied step; only the sweep's own
+offset record is written outside.  Seed s61 replaced the wrapper by a plain call + `continue`. -/
+theorem sweep_cached :
+    (∀ h ∈ [h_liquidationsV2_LiquidateVaults, h_liquidationsV2_LiquidateBorrows],
+      (∀ it ∈ h.items, it.fn != h.name → it.cache = true ∧ it.inLoop = true) ∧
+      (h.items.filter fun it => it.fn == h.name).map (fun it => (it.kind, it.op, it.cache))
+        = [("write", "liquidationsV2.SetLiquidationOffsetHolder", false)]) ∧
+    ((bankItems h_liquidationsV2_LiquidateVaults).map fun it => (it.op, it.srcA, it.dstA, it.cache))
+      = [("SendCoinsFromModuleToModule", "\"vaultV1\"", "\"auctionsV2\"", true)] ∧
+    (bankItems h_liquidationsV2_LiquidateBorrows).length = 6 := by
+  decide +kernel
+
+/-- golden skeleton (weaker tie) of the two emergency-redemption steps the model has as direct ledger edits (`esmBurn`,
+`esmCollector`): `MsgCollateralRedemption` takes the holder's debt coins into the esm account, burns them there, and pays
+collateral out of the esm account per registered collateral asset; the collector's net fees are burnt on the collector account -/
+theorem esm_pins :
+    apins h_esm_CalculateCollateral =
+      [⟨"SendCoinsFromAccountToModule", "addr(from)", "\"esmV1\"", "amount.Denom", false, [], false, false⟩,
+       ⟨"BurnCoins", "\"esmV1\"", "", "amount.Denom", false, [], false, false⟩,
+       ⟨"SendCoinsFromModuleToAccount", "\"esmV1\"", "addr(from)", "asset.GetAsset(each(…).AssetID).Denom", false,
+         [(true, 2380642168), (true, 1977368398)], true, false⟩] ∧
+    apins h_esm_SetUpDebtRedemptionForCollector =
+      [⟨"BurnCoins", "\"collectorV1\"", "", "asset.GetAsset(esm.GetAssetToAmount(…).AssetID).Denom", false,
+         [(true, 3589708173), (true, 3850705579), (true, 1304039001)], true, false⟩] := by
+  decide +kernel
 
 /-! ## the model's handlers run exactly their lists (semantic anchor of the `…Ops` names) -/
 
